@@ -13,10 +13,12 @@ import (
 func (c *Ctx) remoteHaltFamily(prefix string) {
 	p := c.P
 	field := p.Writes("litefs.DB.remoteHaltLock")
-	c.OnlyIn(prefix+"/owners", field, []string{pat("litefs.NewDB"), pat("litefs.(*DB).AcquireRemoteHaltLock"), pat("litefs.(*DB).UnsetRemoteHaltLock")}, 3,
-		"DB.remoteHaltLock is written only by NewDB, AcquireRemoteHaltLock and UnsetRemoteHaltLock", "any other writer grants or keeps write authority outside the halt protocol")
+	c.OnlyIn(prefix+"/owners", field, []string{pat("litefs.NewDB"), pat("litefs.(*DB).AcquireRemoteHaltLock"), pat("litefs.(*DB).unsetRemoteHaltLock")}, 3,
+		"DB.remoteHaltLock is written only by NewDB, AcquireRemoteHaltLock and unsetRemoteHaltLock", "any other writer grants or keeps write authority outside the halt protocol")
 	loaded := "sync/atomic.(*Value).Load(&p0.remoteHaltLock).(*litefs.HaltLock)"
-	un := "litefs.(*DB).UnsetRemoteHaltLock"
+	un := "litefs.(*DB).unsetRemoteHaltLock"
+	unPub := "litefs.(*DB).UnsetRemoteHaltLock"
+	c.Expect(prefix+"/unset-wrapper", joinS(c.returnsOf(unPub)), pat("litefs.(*DB).unsetRemoteHaltLock(p0, p1, p2, false)"), "UnsetRemoteHaltLock is unsetRemoteHaltLock without a held lock", "")
 	cas := func(in ssa.Instruction) bool {
 		return p.Calls("sync/atomic.(*Value).CompareAndSwap")(in) && field(in)
 	}
@@ -26,11 +28,13 @@ func (c *Ctx) remoteHaltFamily(prefix string) {
 	}
 	c.BeforeG(prefix+"/unset-clears", un, p.SuccessReturn, cas, gs(GP("(nil == "+loaded+")", true), GP("(p2 == "+loaded+".ID)", false)), 1,
 		"every success exit of UnsetRemoteHaltLock has cleared the reference, unless no lock is held or the id is not the current one", "C13: the former holder can no longer publish")
-	c.Before(prefix+"/unset-recover-first", un, cas, p.PlainCalls("litefs.(*DB).Recover"), 1, "the local journal/WAL is rolled back/checkpointed before the reference is cleared", "pending local state of the halted writer must not survive into replica mode")
+	c.Before(prefix+"/unset-recover-first", un, cas, p.PlainCalls("litefs.(*DB).Recover", "litefs.(*DB).recover"), 1, "the local journal/WAL is rolled back/checkpointed before the reference is cleared", "pending local state of the halted writer must not survive into replica mode")
 	rl := "litefs.(*DB).ReleaseRemoteHaltLock"
-	c.Before(prefix+"/release-unset-first", rl, p.PlainCalls("litefs.Client.ReleaseHaltLock"), p.PlainCalls(un), 1,
+	c.Guarded(prefix+"/unset-nolock-variant", un, p.PlainCalls("litefs.(*DB).recover"), gs(GP("p3", true)), 1, "the lock-free recovery is used only when the caller states it holds the write lock", "")
+	c.Guarded(prefix+"/unset-locking-variant", un, p.PlainCalls("litefs.(*DB).Recover"), gs(GP("p3", false)), 1, "otherwise the locking Recover is used", "C11")
+	c.Before(prefix+"/release-unset-first", rl, p.PlainCalls("litefs.Client.ReleaseHaltLock"), p.PlainCalls(unPub), 1,
 		"the local reference is cleared before the primary is told to release", "if the response of the remote release is lost the replica would stay writable while the primary accepts other writers (and the next LTX from the primary races the confirmation)")
-	c.ErrHandled(prefix+"/release-unset-error", rl, p.PlainCalls(un), p.PlainCalls("litefs.Client.ReleaseHaltLock"), 1, "a failed local unset stops the release", "")
+	c.ErrHandled(prefix+"/release-unset-error", rl, p.PlainCalls(unPub), p.PlainCalls("litefs.Client.ReleaseHaltLock"), 1, "a failed local unset stops the release", "")
 
 	aq := "litefs.(*DB).AcquireRemoteHaltLock"
 	store := func(in ssa.Instruction) bool {
